@@ -82,6 +82,43 @@ theorem hg_needed :
       = .ok [[⟨1, 0⟩], [⟨0, 1⟩], [⟨3, 0⟩], [⟨0, 0⟩]] := by
   decide +kernel
 
+/-- **C02_stats_driver** — `C02_stats_results` at the executed instantiation `mergeResultsQ`
+    (rational `Fn`/`Xi`, Gaussian-rational `Phi`): whatever `sqrt` the driver is run with, wherever
+    that `sqrt` is exact at the population variance the reported dispersion times the mean is its
+    non-negative root, and the merged values are the arithmetic means. -/
+theorem C02_stats_driver (sqrt : Rat → Rat) (names : List String)
+    (setups : List (List (AlgRes Rat (Cpx Rat)))) (refInd : List (List Nat))
+    (out : List (String × PoserRes Rat (Cpx Rat)))
+    (hnd : names.Nodup) (hne : setups ≠ []) (hlen : ∀ s ∈ setups, s.length = names.length)
+    (h : mergeResultsQ sqrt names setups refInd = .ok out) :
+    out.map (·.1) = names ∧
+    ∀ gi (hgi : gi < out.length),
+      (∀ k, k < out[gi].2.Fn.length →
+        (setups.map (fun s => (s.getD gi default).Fn.getD k 0)).sum ≠ 0 →
+        SqrtAt sqrt (pvar (setups.map (fun s => (s.getD gi default).Fn.getD k 0))) →
+        MeanDisp (setups.map (fun s => (s.getD gi default).Fn.getD k 0))
+          (out[gi].2.Fn.getD k 0) (out[gi].2.Fn_cov.getD k 0)) ∧
+      (∀ k, k < out[gi].2.Xi.length →
+        (setups.map (fun s => (s.getD gi default).Xi.getD k 0)).sum ≠ 0 →
+        SqrtAt sqrt (pvar (setups.map (fun s => (s.getD gi default).Xi.getD k 0))) →
+        MeanDisp (setups.map (fun s => (s.getD gi default).Xi.getD k 0))
+          (out[gi].2.Xi.getD k 0) (out[gi].2.Xi_cov.getD k 0)) :=
+  C02_stats_results sqrt realPart names setups refInd out hnd hne hlen h
+
+/-- non-vacuity of `C02_stats_driver` over the driver's numbers: two setups, frequencies 1 and 3
+    (population variance 1, where the table `sqrt` is exact): merged 2, dispersion 1/2 -/
+example :
+    let sqrt : Rat → Rat := fun x => if x = 1 then 1 else 0
+    let setups : List (List (AlgRes Rat (Cpx Rat))) :=
+      [[⟨[1], [3], [[⟨2, 0⟩], [⟨4, 1⟩]]⟩], [⟨[3], [5], [[⟨-1, 0⟩], [⟨7, 0⟩]]⟩]]
+    (mergeResultsQ sqrt ["ssi"] setups [[0], [0]]).toOption
+      = some [("ssi", ⟨[[⟨2, 0⟩], [⟨4, 1⟩], [⟨-14, 0⟩]], [2], [1/2], [4], [1/4]⟩)] ∧
+    SqrtAt sqrt (pvar [1, 3]) ∧ ([1, 3] : List Rat).sum ≠ 0 ∧ MeanDisp ([1, 3] : List Rat) 2 (1/2) := by
+  intro sqrt setups
+  refine ⟨by decide +kernel, ?_, by decide +kernel, ?_⟩
+  · unfold SqrtAt; decide +kernel
+  · unfold MeanDisp; norm_num
+
 /-- non-vacuity of `C02_merge_all_driver`: a genuinely complex 4-row, 2-mode global matrix
     `G r k = (r+1) + (k+1)i`, reference = global row 1, real factors `(2, 3)` and `(−1/2, 5)` -/
 example : mergeModeShapesQ
